@@ -114,3 +114,13 @@ Example C18_nonvacuous :
   head_step ex_heap (mk_op CkLeastAbsErrors true false false true) = ex_heap /\
   head_step ex_heap (mk_op CMinPathCover true false true false) = ex_heap.
 Proof. vm_compute. repeat split; reflexivity. Qed.
+
+(* audit (2026-10-02): the hypotheses of the refutation / partial theorems have instances: a class whose old summary aliased the
+   option list, a class whose old summary aliased a non-empty dict, a heap without the tag 1, and a NON-EMPTY history of quiet
+   operations (the premise of C18_old_history_independent_partial) *)
+Example C18_hypotheses_satisfiable :
+  old_ext_alias CkLeastAbsErrors = true /\ old_opts_hold CkLeastAbsErrors = AliasIfNonEmpty /\ ~ In 1 (h_graph ex_heap) /\
+  Forall (fun o' => quiet_gen old_opts_hold ex_heap o' = true) [mk_op CkFlowDecomp true false false true; mk_op CkFlowDecomp true false false true].
+Proof.
+  split; [reflexivity|]. split; [reflexivity|]. split; [vm_compute; intuition discriminate|]. repeat constructor; vm_compute; reflexivity.
+Qed.
